@@ -92,10 +92,25 @@ def item(draw) -> Dict[str, Any]:
             'app': draw(st.sampled_from([None] * 5 + ['start-lookup'] * 3 + ['cancel-lookup'] * 3))}
 
 
+@st.composite
+def _cut_announcement_case(draw, tier: str) -> Dict[str, Any]:
+    """Directed shape: a dual-stack instance, a lookup in progress, and the instance's announcement arriving on the IPv6 socket cut
+    short inside its trailing address record (a datagram truncated in flight is still a datagram)."""
+    stream = draw(st.lists(item(), min_size=0, max_size=6))
+    d = {'src': 'vresp', 'inst': draw(st.sampled_from([0, 1])), 'ttl': draw(st.sampled_from([120, 4500])), 'flush': draw(st.booleans()),
+         'repeat': 0, 'recase': False, 'addr': draw(st.sampled_from(['a', 'aaaa-ll', 'aaaa-ll', 'aaaa-global'])),
+         'cut': draw(st.sampled_from([1, 2, 3, 10, 14, 15, 16]))}
+    stream.insert(draw(st.integers(0, len(stream))),
+                  {'d': d, 'gap': draw(st.sampled_from([0, 1, 500])), 'port': 5353, 'family': draw(st.sampled_from(['v6', 'v6', 'v4'])),
+                   'sock': draw(st.integers(0, 2)), 'client': 0, 'oversize': None, 'app': draw(st.sampled_from(['start-lookup', 'start-lookup', None]))})
+    return {'socks': 'dual', 'seed': draw(st.integers(0, 10**6)), 'canary_junk': None, 'stream': stream}
+
+
 def strategy(tier: str):
-    return st.fixed_dictionaries({'socks': st.sampled_from(['v4', 'v4', 'dual']), 'seed': st.integers(0, 10**6),
-                                  'canary_junk': st.sampled_from([None, 200, 500, 900]),
-                                  'stream': st.lists(item(), min_size=1, max_size=40 if tier == 'thorough' else 25)})
+    general = st.fixed_dictionaries({'socks': st.sampled_from(['v4', 'v4', 'dual']), 'seed': st.integers(0, 10**6),
+                                     'canary_junk': st.sampled_from([None, 200, 500, 900]),
+                                     'stream': st.lists(item(), min_size=1, max_size=40 if tier == 'thorough' else 25)})
+    return st.integers(0, 11).flatmap(lambda k: _cut_announcement_case(tier) if k == 0 else general)
 
 
 def build(d: Dict[str, Any]) -> bytes:
